@@ -81,10 +81,13 @@ def corpora(tier):
     std_all = svcorpus.stdlib_names(big=False)
     if tier == "quick":
         std = [n for n in QUICK_STDLIB if n in std_all]
+        cfg = {"explicit_module_name": "RenamedTop"}
         return [("repo", [("repo", n) for n in names], 1, 8),
-                ("stdlib", [("stdlib", n) for n in std], 1, 12),
+                ("stdlib", [("stdlib", n) for n in std] + [("stdlib", n, cfg) for n in std[:4]], 1, 12),
                 ("gen", gen_specs(tier, PID), 1, 6)]
+    cfg = {"explicit_module_name": "RenamedTop", "explicit_file_name": "renamed_file.v"}
     return [("repo", [("repo", n) for n in names], 4, 20),
+            ("repo_cfg", [("repo", n, cfg) for n in names[::3]], 1, 10),       # translation config: explicit names
             ("stdlib", [("stdlib", n) for n in std_all], 2, 30),
             ("stdlib_big", [("stdlib", n) for n in svcorpus.stdlib_names(big=True) if n not in std_all], 1, 40),
             ("gen", gen_specs(tier, PID), 2, 12)]
